@@ -28,6 +28,7 @@ type Hello struct {
 	MaxVer uint16
 	Mutate func(*utls.ClientHelloSpec)
 	Manual bool // bytes written by the client are staged; the harness delivers them (Raw.Deliver)
+	Prep   func(cl, sv *memnet.Conn) // runs on both ends before the proxy can accept the connection
 }
 
 // recConn records everything the client writes (ground truth for "the ClientHello the client sent").
@@ -71,16 +72,20 @@ func (s *Stack) Connect(name string, addr net.Addr, h Hello) *Client {
 		s.nextPort++
 		addr = memnet.TCPAddr("10.0.0.9", s.nextPort)
 	}
-	cl, sv, err := s.Ln.Dial(addr)
+	cl, sv, err := s.Ln.DialWith(addr, func(cl, sv *memnet.Conn) {
+		if h.Manual {
+			cl.SetManual(true)
+		}
+		if h.Prep != nil {
+			h.Prep(cl, sv)
+		}
+	})
 	c := &Client{Name: name, Enc: h2wire.NewEncoder(), Dec: h2wire.NewDecoder()}
 	if err != nil {
 		c.hsDone, c.hsErr = true, err
 		return c
 	}
 	c.Raw, c.Srv = cl, sv
-	if h.Manual {
-		cl.SetManual(true)
-	}
 	c.rec = &recConn{Conn: cl}
 	s.clients = append(s.clients, c)
 	ctx, cancel := context.WithCancel(context.Background())
